@@ -396,6 +396,27 @@ def history_rows(ctx):
             m2 = SSPOR(basis=Identity(n_basis_modes=2), optimizer=mk(), n_sensors=nfD + 2)
             rows.append((f"SSPOR({oname}, Identity(2), n_sensors=n_features+2).fit({dname} data)",
                          outcome(lambda: m2.fit(D.copy(), quiet=True, seed=0)), "E:ValueError"))
+    # a model whose ONLY fit was rejected has never been fitted: every consumer still answers NotFittedError (the rejected fit may
+    # have left a basis behind – F11 – but no ranking, and "fitted" means "has a ranking")
+    from pysensors.basis import SVD
+    def rejected_first_fits():
+        yield "n_sensors>n_features", (lambda: SSPOR(n_sensors=X.shape[1] + 1)), {}
+        yield "n_sensors>n_features, SVD", (lambda: SSPOR(basis=SVD(n_basis_modes=2), n_sensors=X.shape[1] + 3)), {}
+        yield "CCQR costs of the wrong length", (lambda: SSPOR(optimizer=CCQR(sensor_costs=np.ones(3)))), {}
+        yield "GQR unknown option", (lambda: SSPOR(basis=Identity(n_basis_modes=3), optimizer=GQR())), {"constraint_option": "bogus"}
+    for why, mk, kw in rejected_first_fits():
+        consumers = (("predict(x)", lambda m: m.predict(np.zeros((2, 2)))), ("get_selected_sensors()", lambda m: m.get_selected_sensors()),
+                     ("get_all_sensors()", lambda m: m.get_all_sensors()), ("selected_sensors", lambda m: m.selected_sensors),
+                     ("all_sensors", lambda m: m.all_sensors), ("set_number_of_sensors(2)", lambda m: m.set_number_of_sensors(2)),
+                     ("set_n_sensors(2)", lambda m: m.set_n_sensors(2)), ("score(x)", lambda m: m.score(X.copy())),
+                     ("reconstruction_error(x)", lambda m: m.reconstruction_error(X.copy())))
+        for cname, call in consumers:
+            m = mk()
+            first = outcome(lambda: m.fit(X.copy(), quiet=True, seed=0, **kw))
+            if first == "ok":
+                rows.append((f"SSPOR[{why}].fit(x) is rejected", first, "E:ValueError"))
+                break
+            rows.append((f"SSPOR[only fit rejected: {why}].{cname}", outcome(lambda: call(m)), "E:NotFitted"))
     for cell, real, req in rows:
         ctx.evaluations += 1
         ctx.nontriv("hist:" + cell)
